@@ -36,7 +36,7 @@ CFG = {
         "theorems": ["C13_wrapper_equals_grpc", "C13_no_goroutine_left", "C13_unknown_method_unimplemented",
                      "C13_shape_mismatch_internal", "C13_copies_isolated", "C13_send_copied_before_return",
                      "C13_send_leaves_sender_object", "C13_metadata_copied_at_set_time", "C13_incoming_metadata_cloned",
-                     "C13_every_boundary_site_copies", "C13_method_table_is_service_desc",
+                     "C13_every_boundary_site_copies", "C13_method_table_is_service_desc", "C13_model_repairs_match_source",
                      "C13_unwrap_fully_innermost", "C13_unwrap_fully_is_plain", "C13_unwrap_fully_idempotent",
                      "C13_judge_sound", "C13_judge_complete",
                      "C13_header_on_return_v0_refuted", "C13_late_set_header_v0_refuted",
